@@ -12,6 +12,7 @@ import (
 	"syscall"
 	"time"
 
+	"github.com/criyle/go-sandbox/pkg/forkexec"
 	"github.com/criyle/go-sandbox/ptracer"
 	"github.com/criyle/go-sandbox/runner"
 	"github.com/criyle/go-sandbox/zverif/vcore"
@@ -94,6 +95,11 @@ func c17Run(c *vcore.Ctx) *vcore.Violation {
 	c.MarkNonTrivial()
 	var pidMu sync.Mutex
 	allSync := map[int]int{}
+	noise := src.Bool(1, 2, "failing_launch_noise")
+	rounds := 1
+	if noise {
+		rounds = 8 // keep the healthy runs going while the failing launches run next to them
+	}
 	var wg sync.WaitGroup
 	start := make(chan struct{})
 	for _, r := range runs {
@@ -105,7 +111,7 @@ func c17Run(c *vcore.Ctx) *vcore.Violation {
 			sync := func(pid int) error {
 				pidMu.Lock()
 				r.syncPids = append(r.syncPids, pid)
-				if other, dup := allSync[pid]; dup && other != r.id && !strings.HasPrefix(r.kind, "container") {
+				if other, dup := allSync[pid]; dup && other != r.id && !strings.HasPrefix(r.kind, "container") && rounds == 1 {
 					r.consult = append(r.consult, fmt.Sprintf("pid %d also given to run %d", pid, other))
 				}
 				allSync[pid] = r.id
@@ -119,31 +125,75 @@ func c17Run(c *vcore.Ctx) *vcore.Violation {
 				script = append(script, "sys", "258", "-100", "s:"+marker, "0755", "0", "0", "0")
 			}
 			script = append(script, "exit", fmt.Sprint(r.code))
-			switch {
-			case r.kind == "ptrace":
-				h := &recHandler{decide: func(kind, arg string, k int) ptracer.TraceAction {
+			for round := 0; round < rounds; round++ {
+				if round > 0 {
 					pidMu.Lock()
-					r.consult = append(r.consult, arg)
+					r.syncPids, r.consult = nil, nil
 					pidMu.Unlock()
-					switch r.verdict {
-					case "ban":
+				}
+				switch {
+				case r.kind == "ptrace":
+					h := &recHandler{decide: func(kind, arg string, k int) ptracer.TraceAction {
+						pidMu.Lock()
+						r.consult = append(r.consult, arg)
+						pidMu.Unlock()
+						switch r.verdict {
+						case "ban":
+							return ptracer.TraceBan
+						case "kill":
+							return ptracer.TraceKill
+						}
 						return ptracer.TraceBan
-					case "kill":
-						return ptracer.TraceKill
-					}
-					return ptracer.TraceBan
-				}}
-				r.res, r.out = kRunPtrace(context.Background(), &kOpts{script: script, filter: kFilterAllowAllBut([]string{"mkdirat"}, nil), handler: h, extra: []*os.File{r.file}, syncFunc: sync})
-			case r.kind == "unshare":
-				r.res, r.out = kRunUnshare(context.Background(), &kOpts{script: script, extra: []*os.File{r.file}, syncFunc: sync})
-			default:
-				idx, _ := strconv.Atoi(strings.TrimPrefix(r.kind, "container"))
-				r.res, r.out = envs[idx].exec(context.Background(), &kExec{script: script, extra: []*os.File{r.file}, syncFunc: sync})
+					}}
+					r.res, r.out = kRunPtrace(context.Background(), &kOpts{script: script, filter: kFilterAllowAllBut([]string{"mkdirat"}, nil), handler: h, extra: []*os.File{r.file}, syncFunc: sync})
+				case r.kind == "unshare":
+					r.res, r.out = kRunUnshare(context.Background(), &kOpts{script: script, extra: []*os.File{r.file}, syncFunc: sync})
+				default:
+					idx, _ := strconv.Atoi(strings.TrimPrefix(r.kind, "container"))
+					r.res, r.out = envs[idx].exec(context.Background(), &kExec{script: script, extra: []*os.File{r.file}, syncFunc: sync})
+				}
+				want := runner.StatusNonzeroExitStatus
+				if r.verdict == "kill" {
+					want = runner.StatusDisallowedSyscall
+				}
+				if r.res.Status != want || len(r.out.find("fd ")) != 10 && r.verdict != "kill" {
+					break // a deviation: keep it for the oracle below
+				}
 			}
 			r.returned = true
 		}()
 	}
-	ok := watchdog(90*time.Second, func() { close(start); wg.Wait() })
+	// optionally, launches that fail in the child (missing executable) keep happening next to the batch:
+	// their error paths must not disturb anybody else's descriptors
+	stopNoise := make(chan struct{})
+	var noiseWG sync.WaitGroup
+	noiseFailures := 0
+	if noise {
+		c.Event("failing_launch_noise")
+		c.Fault("concurrent_failing_launches")
+		for g := 0; g < 6; g++ {
+			noiseWG.Add(1)
+			go func() {
+				defer noiseWG.Done()
+				<-start
+				for i := 0; i < 2000; i++ {
+					select {
+					case <-stopNoise:
+						return
+					default:
+					}
+					// a plain launch whose exec fails: the child reports the error after the parent's sync
+					fr := &forkexec.Runner{Args: []string{"/nonexistent-verif-program"}, Env: []string{"A=B"}, Files: []uintptr{nullFile().Fd(), nullFile().Fd(), nullFile().Fd()}}
+					if _, err := fr.Start(); err != nil {
+						pidMu.Lock()
+						noiseFailures++
+						pidMu.Unlock()
+					}
+				}
+			}()
+		}
+	}
+	ok := watchdog(90*time.Second, func() { close(start); wg.Wait(); close(stopNoise); noiseWG.Wait() })
 	if !ok {
 		return vcore.Violate(prop, "hang", "batch", "a batch of %d concurrent runs did not finish", n)
 	}
@@ -207,8 +257,8 @@ func init() {
 		ID: "C17", Level: "exploration", Worlds: "K",
 		Rule:       "one run = one batch of 2..10 sandbox runs started at the same instant on all cores of one host process: ptrace runs (each with one traced call carrying its own marker and its own verdict none/ban/kill), namespace runs, and Execve calls spread over 1..2 container environments (several callers may share one environment); every run has its own exit value, its own file on descriptor 3 and its own callback. Results, handler consultations, callback pids and the probe's dump of descriptors 0..9 are compared with what the same run yields alone. distinct = hash of the batch composition; all runs non-trivial. Interleaving inside a batch is genuine parallelism (not chosen by the simulator); the oracle is timing-free",
 		Components: kComponents, Assumptions: append([]string{"the interleaving of launch, wait and teardown phases inside a batch is decided by the kernel and the Go scheduler over 16 cores, not by the choice stream; the thorough tier may be built with the race detector (VERIF_RACE=1)"}, kAssume...), NeedNS: true,
-		Quick:    vcore.Budget{Wall: 30 * time.Second, Shards: 4},
-		Thorough: vcore.Budget{Wall: 10 * time.Minute, Shards: 4},
+		Quick:    vcore.Budget{Wall: 30 * time.Second, Shards: 6},
+		Thorough: vcore.Budget{Wall: 10 * time.Minute, Shards: 6},
 		Init:     kInit, Run: c17Run, StallLimit: 200 * time.Second,
 	})
 }
